@@ -18,13 +18,17 @@ def class_map(name):
     raise ValueError(name)
 
 
-def gen_config(rng, kind, flavour, nflows=None, cmap=None):
+def gen_config(rng, kind, flavour, nflows=None, cmap=None, base=None):
     nflows = nflows or rng.randint(1, 6)
-    flows = list(range(nflows))
-    if kind in ("RR", "WRR", "SP"):
-        cmap = cmap if cmap in ("identity",) or (kind == "SP" and cmap) else "identity"
-        if kind == "SP":
-            cmap = cmap or rng.choice(["identity", "shift", "mod2"])
+    # flow ids: small ints, or large ints (outside CPython's small-int cache; the drivers build a fresh int
+    # object per packet, so identity comparisons on flow ids fail where equality holds)
+    pick = rng.choice([0, 0, 0, 70000])
+    base = pick if base is None else base
+    flows = [base + i for i in range(nflows)]
+    if kind in ("RR", "WRR"):
+        cmap = "identity"
+    elif kind == "SP":
+        cmap = cmap or rng.choice(["identity", "identity", "shift", "mod2"])     # only labels packet.priorities
     else:
         cmap = cmap or rng.choice(["identity", "identity", "shift", "mod2", "mod3"])
     f2c = class_map(cmap)
@@ -39,15 +43,18 @@ def gen_config(rng, kind, flavour, nflows=None, cmap=None):
         rate = rng.choice([8000, 10000, 1234.5])
     cfg = {"kind": kind, "rate": rate, "flows": flows, "cmap": cmap, "classes": classes}
     if kind == "SP":
-        cfg["table"] = {f: rng.choice([1, 2, 3, 3, 5]) for f in flows}          # keyed by flow
+        if flavour == "float" and rng.random() < 0.4:
+            cfg["table"] = {f: rng.choice([1.25, 1.5, 1.75, 2.5, 0.5, 3.0]) for f in flows}     # non-integer levels
+        else:
+            cfg["table"] = {f: rng.choice([1, 2, 3, 3, 5]) for f in flows}          # keyed by flow
     elif kind == "WFQ":
-        cfg["table"] = {c: rng.choice([1, 1, 2, 3, 0.5, 2.5] if flavour == "float" else [1, 1, 2, 4, 0.5]) for c in classes}
+        cfg["table"] = {c: rng.choice([1, 1, 2, 3, 0.5, 2.5, 0.1, 0.2, 0.3, 0.7] if flavour == "float" else [1, 1, 2, 4, 0.5]) for c in classes}
     elif kind == "VC":
         cfg["table"] = {c: rng.choice([0.5, 1, 1, 2, 0.25]) for c in classes}
     elif kind == "DRR":
-        cfg["table"] = {c: rng.choice([1, 1, 2, 3, 5]) for c in classes}
+        cfg["table"] = {c: rng.choice([1, 1, 2, 3, 4, 5, 6]) for c in classes}
     elif kind == "WRR":
-        cfg["table"] = {f: rng.choice([1, 1, 2, 3, 4]) for f in flows}
+        cfg["table"] = {f: rng.choice([1, 1, 2, 3, 4, 6]) for f in flows}
     else:
         cfg["table"] = list(flows)
         if rng.random() < 0.3:
@@ -133,6 +140,13 @@ class Run:
         sched.put, sched.send_packet, self.sink.put = put, send_packet, out
         if counters:
             env.post_hooks.append(lambda e: self.check_counters("step"))
+        # a second, independent scheduler of the same kind and tables lives in the same environment (the ports of
+        # one switch): state that is accidentally shared between instances shows up in the primary one
+        self.twin = None
+        if case.get("twin"):
+            self.twin, _, _ = build(net, cfg)
+            self.twin.out = net.recorder("twin-sink")
+            net.drivers(self.twin, case["twin"])
         self.mon = None
         if monitor:
             from onl.scheduler import Monitor
@@ -208,4 +222,8 @@ def gen_case(rng, kind, flavour=None, n=None, static=False, cmap=None, nflows=No
             if rng.random() < 0.1:
                 shift += 64
             a["t"] += shift
-    return {"cfg": cfg, "flavour": flavour, "arrivals": arr, "static": static}
+    case = {"cfg": cfg, "flavour": flavour, "arrivals": arr, "static": static}
+    if rng.random() < 0.3:
+        tw = vnet.gen_arrivals(rng, len(cfg["flows"]), flavour, rng.randint(3, 40), sizes, None, burst_p=0.5, flows=cfg["flows"])
+        case["twin"] = tw
+    return case
